@@ -35,12 +35,13 @@ def tasks(tier):
         for s in THR:
             for f in THR:
                 ts.append(("series", m, s, f, n))
-    for m in ("bogus", "Average", ""):
-        ts.append(("badmethod", m, 3))
+    for m in ("bogus", "Average", "", " average", "DIFFERENTIAL", "differential ", "avg"):
+        ts.append(("badmethod", m, 3 if m in ("bogus", "Average", "") else 2))
     ts.append(("lists", 3))
     ts.append(("narrow",))
     ts.append(("justabove",))
     ts.append(("calls",))
+    ts.append(("decimal",))
     ts.append(("extreme",))
     ts.append(("long", 0)); ts.append(("long", 1)); ts.append(("long", 2))
     ts.append(("seq",))
@@ -121,6 +122,23 @@ def run_task(task, acc):
                         for s_, f_ in ((1.0, 2.0), (0.5, None)):
                             yield dict(x=x, suspect=s_, fail=f_, method=m, pre=[longer])
                             yield dict(x=x, suspect=s_, fail=f_, method=m, pre=[longer[:ln + 50], longer])
+        run_cases(acc, gen(), check_case)
+    elif kind == "decimal":
+        # decimal (non-dyadic) data with thresholds exactly on the differences the statement's formula yields in double
+        # precision: an algebraically equal rewriting that rounds differently flips these equalities
+        def gen():
+            vals = (0.0, 0.1, 0.2, 0.3, 0.4, 0.7, 1.1)
+            for x in alpha.all_seqs(vals, 3, 3):
+                a, b, c = x
+                ds = {abs(b - (a + c) / 2), min(abs(b - a), abs(c - b))}
+                for m in METHODS:
+                    for d in sorted(ds):
+                        yield dict(x=list(x), suspect=d, fail=None, method=m)
+                        yield dict(x=list(x), suspect=None, fail=d, method=m)
+            for x in alpha.all_seqs(vals[:5], 4, 4):
+                for m in METHODS:
+                    for d in (0.1, 0.2, 0.30000000000000004, 0.15000000000000002):
+                        yield dict(x=list(x), suspect=d, fail=2 * d, method=m)
         run_cases(acc, gen(), check_case)
     elif kind == "calls":
         def gen():
